@@ -115,10 +115,23 @@ KNOWN_CRASHES = ("evolve:qn2:normalize:raises-ValueError", "evolve:qn2:tdvp_ps2:
                  "evolve:aux:tdvp_ps2:raises-KeyError")
 
 
+def _ps2_tensors(spec):
+    """largest number of tensors in a two-site effective Hamiltonian of this tree"""
+    nch = [0] * len(spec["nodes"])
+    for nd in spec["nodes"]:
+        if nd["parent"] >= 0:
+            nch[nd["parent"]] += 1
+    return max(nch[i] + nch[nd["parent"]] - 1 + 4 for i, nd in enumerate(spec["nodes"]) if nd["parent"] >= 0)
+
+
 def _pick(rng, spec, method, p_norm=0.5, aux=False):
     """normalize flag and scheme; the understood crashes are probed rarely so that the remaining
     budget reaches everything else on two-component labels / auxiliary trees"""
     normalize = bool(rng.random() < p_norm)
+    if method is PS2 and _ps2_tensors(spec) > 7:
+        # the library asks opt_einsum for the optimal contraction path: factorial search, 8 tensors
+        # with many indices take over a minute
+        method = PS
     if spec["qn_size"] == 2:
         normalize = bool(rng.random() < 0.08)
         if method is PS2 and rng.random() < 0.85:
